@@ -749,11 +749,12 @@ impl LanguageHooks for StdHooks06 {
     fn has_registers(&self) -> bool { false }
 
     fn encode_label(&self, _cur: raw::BytePos, dest_offset: raw::BytePos) -> raw::RawDwordBits {
-        assert_eq!(dest_offset % 20, 0);
+        // (every instruction is 20 bytes; a script with an instruction of another size, which can
+        //  only come from a `@blob`, is rejected when it is written)
         (dest_offset / 20) as u32
     }
     fn decode_label(&self, _cur: raw::BytePos, bits: raw::RawDwordBits) -> raw::BytePos {
-        (bits * 20) as u64
+        bits as u64 * 20
     }
 
     fn instr_format(&self) -> &dyn InstrFormat { self }
